@@ -168,6 +168,21 @@ func extraC08(c *Check) {
 			in[f] = true
 		}
 		c.ErrIdentityRule(func(s errTestSite) bool { return in[s.Fn] }, 2)
+		// … and the statement executor is ON that chain: the deadline / lock-wait error it produces is what is tested
+		for _, s := range p.errTestSites() {
+			if !in[s.Fn] {
+				continue
+			}
+			ch := newErrChain(c)
+			ch.val(s.Call.Call.Args[0], 8)
+			has := false
+			for f := range ch.Funcs {
+				if p.Name(f) == "(*mysql.Node).execWithTimeout" {
+					has = true
+				}
+			}
+			c.Req(has, p.Name(s.Fn), p.InstrPos(s.Call), "errors."+s.Kind+":"+s.Target+":from-executor", "the tested error can be the one the statement executor returned for the read-only statement (not a later, generic 'has not switched' error)", "the executor is not on the return chain")
+		}
 	})
 }
 
